@@ -938,3 +938,187 @@ def worker(job):
         rec["skip"] = "HARNESS:" + _exc(ex)
         rec["detail"] = traceback.format_exc()[-1500:]
     return rec
+
+
+# ----------------------------------------------------------------------------------------
+# judging (TLC)
+# ----------------------------------------------------------------------------------------
+def _stage(R):
+    return "convert" if "from_pddl.py" in R.get("rwhere", "") else "parse"
+
+
+def judge_fragment(ctx, recs):
+    """PddlReaders: -> (cids to bisimulate, fails [(cid, clause, detail)], tallies {cid: [tally]})"""
+    rows = []
+    for rec in recs:
+        up, ai = rec["reads"]["up"], rec["reads"]["ai"]
+        rows.append({"cid": rec["cid"], "up": {"exc": up["rexc"], "stage": _stage(up)}, "ai": {"exc": ai["rexc"], "stage": _stage(ai)},
+                     "anums": _consts(up["P"]) if up["P"] else [], "bnums": _consts(ai["P"]) if ai["P"] else [],
+                     "safe": up["safe"], "acase": up["case"], "bcase": ai["case"]})
+    d = ctx.sub("fragment")
+    path = os.path.join(d, "batch.ndjson")
+    tlc.write_ndjson(path, rows)
+    res = tlc.run_tlc("PddlReaders", CFG, d, env={"BATCH": path}, workers=8, timeout=1500, heap="4g")
+    if res.error or res.violated:
+        raise MachineryError("PddlReaders failed: %s %s" % (res.violated, (res.error or "")[-3000:]))
+    if res.distinct != len(rows):
+        raise MachineryError("PddlReaders consumed %d of %d records" % (res.distinct, len(rows)))
+    ctx.add_tlc("PddlReaders", res)
+    todo, fails, tallies = set(), [], {}
+    for p in res.printed:
+        if not p:
+            continue
+        if p[0] == "B":
+            todo.add(p[1])
+        elif p[0] == "FAIL":
+            if (p[1], p[2], p[3]) not in fails:
+                fails.append((p[1], p[2], p[3]))
+        elif p[0] == "T":
+            if p[2] not in tallies.setdefault(p[1], []):
+                tallies[p[1]].append(p[2])
+    return todo, fails, tallies
+
+
+def judge_bisim(ctx, recs, todo, D):
+    """Bisim on the pairs PddlReaders selected, grouped by depth bound -> fails [(cid, clause, action)]"""
+    groups = {}
+    for rec in recs:
+        if rec["cid"] not in todo:
+            continue
+        up, ai = rec["reads"]["up"], rec["reads"]["ai"]
+        d = min(D, up["safe"])
+        groups.setdefault(d, []).append({"cid": rec["cid"], "A": up["P"], "B": ai["P"], "akeys": upj.keys_of(up["P"]),
+                                         "bkeys": upj.keys_of(ai["P"]), "depth": d, "length_as_unit_costs": True,
+                                         "final_value_metric": True})
+    fails, n = [], 0
+    for depth in sorted(groups):
+        batch = groups[depth]
+        d = ctx.sub("bisim-%d" % depth)
+        path = os.path.join(d, "batch.ndjson")
+        tlc.write_ndjson(path, batch)
+        res = tlc.run_tlc("Bisim", CFG_BISIM, d, env={"BATCH": path}, workers=8, timeout=3000, heap="12g")
+        if res.error or res.violated:
+            raise MachineryError("Bisim failed: %s %s" % (res.violated, (res.error or "")[-3000:]))
+        m = re.search(r"Finished computing initial states: (\d+) distinct state", res.stdout)
+        if not m or int(m.group(1)) != len(batch):
+            raise MachineryError("Bisim started from %s of %d pairs" % (m.group(1) if m else "?", len(batch)))
+        ctx.add_tlc("Bisim-depth-%d" % depth, res)
+        n += len(batch)
+        seen = set()
+        for p in res.printed:
+            if p and p[0] == "FAIL":
+                k = (p[1], p[2], p[3])
+                if k not in seen:
+                    seen.add(k)
+                    fails.append(k)
+    return fails, n
+
+
+# clause -> the surface-form features a signature is keyed on (when present in the text / in the action)
+RELEVANT = {
+    "applicability": ["pre:()", "pre:(and)", "type:object-parameter", "type:untyped-parameter"],
+    "initial-state-differs": ["init:numeric-fluent-without-value", "init:negative-literal"],
+    "numeric-literal-differs": ["num:non-dyadic-decimal"],
+    "successor-differs": ["num:non-dyadic-decimal", "init:numeric-fluent-without-value"],
+    "goal-verdict": ["num:non-dyadic-decimal", "init:numeric-fluent-without-value"],
+    "objects-differ": ["type:object-explicit", "types:none"],
+    "metric-kind-differs": ["action-costs"],
+}
+
+
+def signature(clause, feats, afeats):
+    key = next((k for k in RELEVANT if clause.startswith(k)), None)
+    keep = [f for f in RELEVANT.get(key, []) if f in feats or f in afeats]
+    return "%s%s" % (clause, ("|" + ",".join(keep)) if keep else "")
+
+
+def run(ctx):
+    q = ctx.quick
+    counts = [("cls", 26), ("num", 26), ("case", 8), ("border", 16), ("dec", 6)] if q else \
+             [("cls", 500), ("num", 600), ("case", 120), ("border", 260), ("dec", 80)]
+    D = 3 if q else 4
+    texts = make_texts(ctx.rng, counts)
+    work = ctx.sub("texts")
+    jobs = [(i + 1, sl, dom, prob, work, D) for i, (sl, P, dom, prob, feats, af) in enumerate(texts)]
+    meta = {i + 1: {"slice": sl, "seed": P, "domain_pddl": dom, "problem_pddl": prob, "features": feats, "action_features": af}
+            for i, (sl, P, dom, prob, feats, af) in enumerate(texts)}
+    ship = shipped_pairs()
+    if q:
+        # quick tier: one problem per shipped domain
+        seen, keep = set(), []
+        for dom, pr in ship:
+            if dom not in seen:
+                seen.add(dom)
+                keep.append((dom, pr))
+        ship = keep
+    for dom, pr in ship:
+        cid = len(jobs) + 1
+        jobs.append((cid, "shipped", dom, pr, work, 1))
+        meta[cid] = {"slice": "shipped", "seed": None, "domain_pddl": dom, "problem_pddl": pr, "features": ["shipped"], "action_features": {}}
+    with Pool(NPROC, maxtasksperchild=40) as pool:
+        recs = pool.map(worker, jobs, chunksize=2)
+    for r in recs:
+        if r["skip"]:
+            raise MachineryError("driver error: %s" % r.get("detail"))
+    todo, fails1, tallies = judge_fragment(ctx, recs)
+    fails2, nb = judge_bisim(ctx, recs, todo, D) if todo else ([], 0)
+    by = {r["cid"]: r for r in recs}
+    for (cid, clause, detail) in fails1 + fails2:
+        m = meta[cid]
+        rec = by[cid]
+        af = m["action_features"].get(detail, []) + m["action_features"].get(str(detail).upper(), [])
+        sig = signature(clause, m["features"], af)
+        ctx.violation(sig, "C21 readers disagree: %s %s" % (clause, detail),
+                      {"clause": clause, "detail": detail, "slice": m["slice"], "features": m["features"], "action_features": m["action_features"],
+                       "domain_pddl": m["domain_pddl"], "problem_pddl": m["problem_pddl"],
+                       "A_up_reader": rec["reads"]["up"]["P"], "B_ai_reader": rec["reads"]["ai"]["P"]})
+    tally = {}
+    for cid, ts in tallies.items():
+        for t in ts:
+            tally[t] = tally.get(t, 0) + 1
+    per_slice = {}
+    for rec in recs:
+        sl = meta[rec["cid"]]["slice"]
+        up, ai = rec["reads"]["up"], rec["reads"]["ai"]
+        k = "both" if up["rexc"] == "none" and ai["rexc"] == "none" else ("ai-only" if ai["rexc"] == "none" else ("up-only" if up["rexc"] == "none" else "none"))
+        per_slice.setdefault(sl, {}).setdefault(k, 0)
+        per_slice[sl][k] += 1
+    why = {}
+    for rec in recs:
+        for rn in ("up", "ai"):
+            R = rec["reads"][rn]
+            if R["rexc"] != "none":
+                k = "%s:%s:%s" % (rn, R["rexc"], re.sub(r"[0-9]+|'[^']*'|\"[^\"]*\"", "_", R["rmsg"])[:70])
+                why[k] = why.get(k, 0) + 1
+    forms = {}
+    for cid in todo:
+        for f in meta[cid]["features"] + sorted({x for fs in meta[cid]["action_features"].values() for x in fs}):
+            forms[f] = forms.get(f, 0) + 1
+    ctx.cov["evaluations"] = len(recs)
+    ctx.cov["traces_validated_against_impl"] = nb
+    ctx.cov["distinct_nontrivial"] = nb
+    ctx.cov["unspecified"] += sum(1 for ts in tallies.values() if "unjudgeable-too-large" in ts)
+    ctx.cov["texts"] = {sl: sum(1 for m in meta.values() if m["slice"] == sl) for sl in ("cls", "num", "case", "border", "dec", "shipped")}
+    ctx.cov["accepted_by"] = per_slice
+    ctx.cov["bisimulated_pairs"] = nb
+    ctx.cov["tallies"] = tally
+    ctx.cov["rejections"] = dict(sorted(why.items(), key=lambda kv: -kv[1])[:40])
+    ctx.cov["surface_forms_in_bisimulated_texts"] = forms
+    ctx.cov["shipped_pairs_in_common_fragment"] = sorted(
+        os.path.relpath(meta[c]["problem_pddl"], REPO) for c in todo if meta[c]["slice"] == "shipped")
+    ctx.cov["rule"] = (
+        "PDDL texts printed by the harness's own printer from G2 seeds (classical, numeric, mixed-case, border-of-the-fragment and "
+        "non-dyadic-decimal slices) + the shipped .pddl pairs; one evaluation = one text given to both readers and classified by TLC "
+        "(PddlReaders); non-trivial = texts both readers accept, compared by Bisim on every state reachable within depth %d "
+        "(shipped pairs: depth <= 1)." % D)
+    ex = next((r for r in recs if r["cid"] in todo), recs[0])
+    ctx.sample({"domain_pddl": meta[ex["cid"]]["domain_pddl"], "problem_pddl": meta[ex["cid"]]["problem_pddl"],
+                "features": meta[ex["cid"]]["features"]})
+    ctx.assumptions += [
+        "TLC, the Json reader, harness/upj.py (projection, structure only) and the lower-casing of identifiers in the driver are trusted",
+        "the PDDL text is not modelled: only behavioural equivalence of the two readers' results is decided; which reader is right "
+        "w.r.t. PDDL semantics is triaged by hand (notes/C21.md)",
+        "texts the third-party based reader rejects are outside the common fragment (tallied with the reason), texts only the UP reader "
+        "rejects are tallied as information",
+        "identifiers of a text never differ only in letter case (PDDL would make them equal)",
+    ]
